@@ -321,6 +321,48 @@ def after_collection(ctx):
     ctx.count('later_collection_runs', n)
 
 
+def syspath_entries(ctx):
+    """sys.path as an interactive session or `python -c` has it - with the entry '' (the current directory) in front: looking a module
+    up, which every `+REQUIRES(module:NAME)` directive and every collection by name does, reads the list and leaves it alone"""
+    from xdoctest import doctest_example
+    from xdoctest.utils import util_import
+    path0 = list(sys.path)
+    n = 0
+    try:
+        for where in ('front', 'middle', 'twice'):
+            base = [p for p in path0 if p != '']
+            sys.path[:] = ([''] + base) if where == 'front' else (base[:2] + [''] + base[2:]) if where == 'middle' else ([''] + base + [''])
+            for k, name in enumerate(('colorsys', 'xdverif_c12_no_such_module_%s' % where, 'json.decoder', 'sndhdr_%s_missing.sub' % where, 'wave')):
+                for how in ('directive', 'lookup'):
+                    ctx.evaluations += 1
+                    n += 1
+                    before = list(sys.path)
+                    so = sys.stdout
+                    try:
+                        if how == 'directive':
+                            ex = doctest_example.DocTest(docsrc=">>> # xdoctest: +REQUIRES(module:%s)\n>>> print('x')\nx\n" % name, lineno=1)
+                            ex.mode = 'native'
+                            with warnings.catch_warnings():
+                                warnings.simplefilter('ignore')
+                                ex.run(on_error='return', verbose=0)
+                        else:
+                            util_import.modname_to_modpath(name + ('' if k % 2 else '_again'))
+                    except BaseException as e:      # noqa
+                        pass
+                    finally:
+                        sys.stdout = so
+                    after = list(sys.path)
+                    if after != before:
+                        ctx.violation('not-restored', {'what': "sys.path holds the entry '' (%s); after %s of module %r it reads %r instead of %r" % (
+                            where, 'a doctest with +REQUIRES(module:...)' if how == 'directive' else 'modname_to_modpath()', name,
+                            [p for p in after if p in ('', '.')], [p for p in before if p in ('', '.')]), 'module_name': name, 'how': how, 'where': where,
+                            'scenario': 'syspath-empty-entry', 'theorem_or_correspondence': 'C12: sys.path after a run / a lookup'}, True)
+                        return
+    finally:
+        sys.path[:] = path0
+    ctx.count('syspath_empty_entry_cases', n)
+
+
 def capture_protocol(ctx):
     """utils.CaptureStdout, the object DocTest.run wraps around every part, driven directly: random sequences of parts over ONE
     capture object (as run does), each part a list of actions (write text incl. carriage returns / non-ASCII, swap sys.stdout and maybe
@@ -688,6 +730,7 @@ def run(ctx):
     import_cases(ctx)
     ambient_streams(ctx)
     after_collection(ctx)
+    syspath_entries(ctx)
     capture_protocol(ctx)
     ctx.add_rule('PythonPathContext: seeded sys.path lists x index in {-1,0,1,2,-2,len,-(len+1)} x 11 body manipulations vs model; '
                  'DocTest.run: 9 body flavours (prints, replaces sys.stdout with/without restoring, closes the stream found in sys.stdout directly or through `with`, alters warning filters / showwarning, awaits, touches stderr) x '
